@@ -110,6 +110,9 @@ var funcSpecs = []funcSpec{
 	{rel: "internal/format", name: "(*WrappedBase64Encoder).writeWrapped", opaque: map[string]string{"io.Writer": "δ", "io.WriteCloser": "ω"},
 		fuel: map[int]string{1: "(Go.len p).toNat + 1"}},
 	{rel: "internal/format", name: "(*WrappedBase64Encoder).LastLineIsEmpty", opaque: map[string]string{"io.Writer": "δ", "io.WriteCloser": "ω"}},
+	{rel: "", name: "headerMAC", abstract: []string{"format.MarshalWithoutMAC"}, opaque: map[string]string{"io.Reader": "κ", "hash.Hash": "η", "io.Writer": "η"},
+		threaded: map[string][]string{"format.MarshalWithoutMAC": {"hh"}}},
+	{rel: "", name: "streamKey", opaque: map[string]string{"io.Reader": "κ"}},
 	{rel: "", name: "ParseRecipients", abstract: []string{"age.ParseX25519Recipient"}, opaque: map[string]string{"Recipient": "κ", "X25519Recipient": "κ"}, errInts: true},
 }
 
@@ -1032,8 +1035,12 @@ func (c *fctx) call(x *ast.CallExpr) string {
 							an := nt.Obj().Name() + "_" + o.Name()
 							c.useAbstractName(an, fmt.Sprintf("(%s : %s → Go.M %s)", an, strings.Join(ps, " → "), tupleType(rs)))
 							parts := []string{c.expr(sel.X)}
-							for _, a := range x.Args {
-								parts = append(parts, c.expr(a))
+							for i, a := range x.Args {
+								var want types.Type
+								if i < msig.Params().Len() {
+									want = msig.Params().At(i).Type()
+								}
+								parts = append(parts, c.exprAs(a, want))
 							}
 							return "(← " + an + " " + strings.Join(parts, " ") + ")"
 						}
@@ -1080,6 +1087,13 @@ func (c *fctx) call(x *ast.CallExpr) string {
 				}
 				c.useAbstractName("hkdf_New_sha256", "(hkdf_New_sha256 : (List UInt8) → (List UInt8) → (List UInt8) → Go.M κ)")
 				return "(← hkdf_New_sha256 " + c.exprAs(x.Args[1], c.typeOf(x.Args[1])) + " " + c.sliceOrNil(x.Args[2]) + " " + c.expr(x.Args[3]) + ")"
+			}
+			if o.Pkg().Path() == "crypto/hmac" && o.Name() == "New" {
+				if c.t.pr.text(c.fi.Pkg, x.Args[0]) != "sha256.New" {
+					c.fail(x, "hmac.New with a hash other than sha256.New")
+				}
+				c.useAbstractName("hmac_New_sha256", "(hmac_New_sha256 : (List UInt8) → Go.M η)")
+				return "(← hmac_New_sha256 " + c.expr(x.Args[1]) + ")"
 			}
 			if o.Pkg().Path() == "strconv" && o.Name() == "Atoi" {
 				return "(Go.strconv_Atoi " + c.expr(x.Args[0]) + ")"
@@ -1751,7 +1765,7 @@ func (c *fctx) threadedVars(call *ast.CallExpr) []*types.Var {
 	if c.tapeVar != nil && f.Pkg().Path() == "crypto/rand" && f.Name() == "Read" {
 		out = append(out, c.tapeVar)
 	}
-	if c.tapeVar != nil && f != c.fi.Obj {
+	if c.tapeVar != nil && f != c.fi.Obj && !c.isAbstract(f) {
 		if fi := c.t.pr.Funcs[f]; fi != nil && c.t.translatable(fi) {
 			c.t.translate(fi, c, call)
 			if c.t.tapeOf[f] {
@@ -2269,7 +2283,7 @@ func (c *fctx) assign(e *emitter, ind int, st *ast.AssignStmt) {
 	define := st.Tok == token.DEFINE
 	// a call of a translated function that draws from the random tape: results, then the tape left over
 	if call, ok := ast.Unparen(st.Rhs[0]).(*ast.CallExpr); ok && len(st.Rhs) == 1 && (st.Tok == token.ASSIGN || st.Tok == token.DEFINE) && c.tapeVar != nil {
-		if f, ok := c.fi.Pkg.callee(call).(*types.Func); ok && f != c.fi.Obj {
+		if f, ok := c.fi.Pkg.callee(call).(*types.Func); ok && f != c.fi.Obj && !c.isAbstract(f) {
 			if fi := c.t.pr.Funcs[f]; fi != nil && c.t.translatable(fi) {
 				name := c.t.translate(fi, c, call)
 				if c.t.tapeOf[f] && !c.t.recvInout[f] {
